@@ -83,6 +83,22 @@ def run(ck, F):
         else:
             ck.violation("R2", "binding-value", site, f"prefix is bound to {v[:120]}")
     ck.floor("R2", "prefix table insertions", len(ins), 2)
+    # a document's prefix table holds only its own declarations (plus, for the importer, what `extend` merges in afterwards)
+    n_w = 0
+    for (fn, site, how, bb, node) in scans.field_writers(F.lib, "namespace_lookup"):
+        if "yaserde_tests" in fn:
+            continue
+        n_w += 1
+        short = fn.rsplit("::", 1)[-1]
+        if fn.endswith("RustDocument::add_namespace_reference") and how.endswith("::insert"):
+            ck.ok("R2", f"writer:{short}:insert", site, "prefix table written by add_namespace_reference (own declaration)", fn=short)
+        elif fn.endswith("RustDocument::extend") or fn.endswith("RustDocument::empty"):
+            ck.ok("R2", f"writer:{short}", site, f"prefix table written in {short} (merge into the importer / initialisation)", fn=short)
+        else:
+            ck.violation("R2", f"writer:{short}:{how.rsplit('::', 1)[-1]}", site,
+                         f"{fn} writes the prefix table with `{how.rsplit('::', 1)[-1]}`: bindings that are not declarations of the document being read "
+                         f"enter its prefix table, and (because a prefix already in the table is not re-bound) its own xmlns declarations can be ignored", fn=short)
+    ck.floor("R2", "writers of the prefix table", n_w, 3)
     # ---- R3 / R4: by-name selections
     live = scans.api_reachable(F.lib)
     n_sel = 0
@@ -151,6 +167,37 @@ def run(ck, F):
                     ck.ok("R3", f"{short}:namespace-used", fb["span"], f"{short}: the reference's namespace is " + ("captured by the selection predicate" if captured else "passed on"), fn=short)
                 else:
                     ck.violation("R3", f"{short}:namespace-not-in-predicate", fb["span"], f"{short}: `{pname}` is read but not by the selection predicate", fn=short)
+        # every found component that is returned must depend on the namespace of the reference: by data (selected by a predicate or
+        # callee that received it) or by control (a test on it dominates the return)
+        for l in ns_params:
+            ns_switches = []
+            for i in sorted(B.reach):
+                t = B.term(i)
+                if t.get("k") == "switch":
+                    roots, via = M.slice_info(B, t["discr"])
+                    if ("arg", l) in roots:
+                        ns_switches.append(i)
+            for i in sorted(B.reach):
+                cands = []
+                for st in B.blocks[i]["stmts"]:
+                    if st["k"] == "assign" and st["p"]["l"] == 0 and not st["p"].get("proj") and st["rv"]["k"] == "aggregate" \
+                            and st["rv"].get("variant") in ("Some", "Ok") and st["rv"]["ops"]:
+                        cands.append((st["rv"]["ops"][0], st.get("sp")))
+                t = B.term(i)
+                if t.get("k") == "call" and t["dest"]["l"] == 0 and not t["dest"].get("proj") and not (M.Body.callee_decl(t) or "").endswith("from_residual"):
+                    for a in t["args"]:
+                        cands.append((a, t.get("sp")))
+                for (op, site_) in cands:
+                    roots, via = M.slice_info(B, op)
+                    data = ("arg", l) in roots
+                    ctrl = any(B.dominates(sw, i) and sw != i for sw in ns_switches)
+                    if not (data or ctrl):
+                        ck.violation("R3", f"{short}:result-independent-of-namespace", site_ or fb["span"],
+                                     f"{short} can return a component that was selected without looking at the namespace of the reference "
+                                     f"(neither the value returned nor a test dominating this return depends on `{B.local_name(l) or l}`)", fn=short)
+                    else:
+                        ck.ok("R3", f"{short}:result-depends-on-namespace", site_ or fb["span"],
+                              f"{short}: the returned component depends on the reference's namespace ({'data' if data else 'control'})", fn=short)
         # R4 kind
         kinds = _mentions_kind(F, fb)
         if kinds:
